@@ -52,9 +52,14 @@ class PairIter:
                 return self.b
             if e.get('id') in self.local_idx:
                 return self.local_idx[e['id']]
+            if e.get('id') in getattr(self, 'zero_vars', ()):
+                return 0
             raise NotPairwise('index variable ' + e['name'])
         if e['k'] == 'bin':
             l, r = SX.strip(e['l']), SX.strip(e['r'])
+            zv = getattr(self, 'zero_vars', ())
+            if e['op'] in ('+', '|') and zv and all(SX.is_node(x) and x.get('k') == 'ref' and x.get('id') in zv for x in (self._peel(l), self._peel(r))):
+                return 0      # block start (multiple of 2·2^q) plus offset (< 2^q): bit q is clear
             lb = self._is_bit(l)
             rb = self._is_bit(r)
             if rb or lb:
@@ -74,6 +79,12 @@ class PairIter:
             if e['op'] == '&' and (rb or lb):
                 raise OutsidePair('cell %s is 0 or 2^q itself, not a cell of the pair of index i' % SX.show(e)[:30])
         raise NotPairwise('index expression ' + SX.show(e)[:40])
+
+    @staticmethod
+    def _peel(e):
+        while SX.is_node(e) and e.get('k') == 'cast':
+            e = SX.strip(e['e'])
+        return e
 
     def _is_bit(self, e):
         while SX.is_node(e) and e['k'] == 'cast':
@@ -309,3 +320,247 @@ def partial_state_loop(s, amp):
     if not w or w[2] != '++':
         reasons.append('does not step by one')
     return '; '.join(reasons) or 'is not a plain full sweep'
+
+
+# ---- sweeps over the state vector: flat (every index) or blocked (every bit-clear index once) ---------------------------------
+def _lit0(e):
+    e = SX.strip(e)
+    while SX.is_node(e) and e['k'] in ('cast', 'initlist'):
+        e = e['e'] if e['k'] == 'cast' else (e['items'][0] if e['items'] else None)
+        e = SX.strip(e) if e is not None else None
+    return SX.is_node(e) and e.get('k') == 'int' and e.get('v') == 0
+
+
+def _counted(s):
+    """for (T v = 0; v < B; ++v | v += S) with v untouched in the body and no break/return → (var decl, bound expr, stride expr|None)"""
+    if s.get('k') != 'for' or not s.get('init') or s['init']['k'] != 'decls' or len(s['init']['d']) != 1:
+        return None
+    v = s['init']['d'][0]
+    if not _lit0(v.get('init')):
+        return None
+    cp = SX.cmp_parts(s.get('c')) if SX.is_node(s.get('c')) else None
+    if not cp or cp[0] != '<' or SX.strip(cp[1]).get('id') != v['id']:
+        return None
+    w = SX.write_target(s['inc']) if SX.is_node(s.get('inc')) else None
+    if not w or SX.strip(w[0]).get('id') != v['id'] or w[2] not in ('++', '+='):
+        return None
+    for n in SX.walk(s['body'], into_lambdas=False):
+        if n['k'] in ('break', 'return'):
+            return None
+        ww = SX.write_target(n)
+        if ww and SX.is_node(SX.strip(ww[0])) and SX.strip(ww[0]).get('id') == v['id']:
+            return None
+    return v, cp[2], (w[1] if w[2] == '+=' else None)
+
+
+def _is_size(e, amp, aliases):
+    e = SX.strip(e)
+    while SX.is_node(e) and e.get('k') == 'cast':
+        e = SX.strip(e['e'])
+    if SX.show(e) == amp + '.size()':
+        return True
+    return SX.is_node(e) and e.get('k') == 'ref' and e.get('id') in aliases
+
+
+def size_aliases(fn_body, amp):
+    """locals initialised to amp.size() and never written again"""
+    out = set()
+    written = set()
+    for n in SX.walk(fn_body, into_lambdas=False):
+        w = SX.write_target(n)
+        if w and SX.is_node(SX.strip(w[0])) and SX.strip(w[0]).get('k') == 'ref':
+            written.add(SX.strip(w[0]).get('id'))
+    for v in SX.walk(fn_body, into_lambdas=False):
+        if v['k'] == 'var' and SX.is_node(v.get('init')) and SX.show(SX.strip(v['init'])) == amp + '.size()' and v['id'] not in written:
+            out.add(v['id'])
+    return out
+
+
+def state_sweep(s, amp, bit_ids, aliases=()):
+    """('flat', loop var decl, body) | ('blocked', (outer var id, inner var id), body) | None"""
+    c = _counted(s)
+    if not c or not _is_size(c[1], amp, aliases):
+        return None
+    v, bound, stride = c
+    if stride is None or (SX.is_node(SX.strip(stride)) and SX.strip(stride).get('k') == 'int' and SX.strip(stride)['v'] == 1):
+        return ('flat', v, s['body'])
+    # stride 2·bit with a single inner loop over [0, bit)
+    st = SX.strip(stride)
+    two_bit = False
+    if SX.is_node(st) and st.get('k') == 'bin' and st['op'] == '*':
+        a, b = SX.strip(st['l']), SX.strip(st['r'])
+        for x, y in ((a, b), (b, a)):
+            while SX.is_node(y) and y.get('k') == 'cast':
+                y = SX.strip(y['e'])
+            if SX.is_node(x) and x.get('k') == 'int' and x['v'] == 2 and SX.is_node(y) and y.get('k') == 'ref' and y.get('id') in bit_ids:
+                two_bit = True
+    if SX.is_node(st) and st.get('k') == 'bin' and st['op'] == '<<' and SX.strip(st['r']).get('v') == 1 and SX.strip(st['l']).get('id') in bit_ids:
+        two_bit = True
+    if not two_bit:
+        return None
+    inner = s['body']['body'] if s['body'].get('k') == 'block' else [s['body']]
+    if len(inner) != 1 or inner[0].get('k') != 'for':
+        return None
+    ci = _counted(inner[0])
+    if not ci or ci[2] is not None:
+        return None
+    b_ = SX.strip(ci[1])
+    while SX.is_node(b_) and b_.get('k') == 'cast':
+        b_ = SX.strip(b_['e'])
+    if not (SX.is_node(b_) and b_.get('k') == 'ref' and b_.get('id') in bit_ids):
+        return None
+    return ('blocked', (v['id'], ci[0]['id']), inner[0]['body'])
+
+
+def sweep_final(it, sweep):
+    """state of one pair after the sweep passed it"""
+    if sweep[0] == 'flat':
+        it.iv = sweep[1]['id']
+        return pair_final(it, sweep[2])
+    it.iv = None
+    it.zero_vars = set(sweep[1])
+    c0, _ = it.run(sweep[2], 0)
+    return (c0.get(0, A[0]), c0.get(1, A[1]))
+
+
+# ---- two-bit groups: a flat sweep that distinguishes indices by two bits (cx) ---------------------------------------------------
+class QuadIter:
+    """Symbolic execution of one loop iteration for an index of class (c, t) = (control bit, target bit); the state of the
+    four-cell group is a dict cell → symbol.  Supports index algebra with the two masks, bit tests, bool locals, continue,
+    std::swap of two cells and plain cell assignments."""
+
+    def __init__(self, amp, iv, cbits, tbits):
+        self.amp, self.iv, self.cbits, self.tbits = amp, iv, set(cbits), set(tbits)
+
+    def _p(self, e):
+        e = SX.strip(e)
+        while SX.is_node(e) and e.get('k') == 'cast':
+            e = SX.strip(e['e'])
+        return e
+
+    def mask(self, e):
+        e = self._p(e)
+        if SX.is_node(e) and e.get('k') == 'ref':
+            if e.get('id') in self.cbits:
+                return 'c'
+            if e.get('id') in self.tbits:
+                return 't'
+        return None
+
+    def cell(self, e):
+        e = self._p(e)
+        if not SX.is_node(e):
+            raise NotPairwise('index')
+        if e['k'] == 'ref':
+            if e.get('id') == self.iv:
+                return self.cur
+            if e.get('id') in self.idx:
+                return self.idx[e['id']]
+            raise NotPairwise('index variable ' + e.get('name', '?'))
+        if e['k'] == 'bin' and e['op'] in ('|', '^', '+', '-'):
+            for a, b in ((e['l'], e['r']), (e['r'], e['l'])):
+                m = self.mask(b)
+                if m:
+                    c, t = self.cell(a)
+                    old = c if m == 'c' else t
+                    if e['op'] == '|':
+                        new = 1
+                    elif e['op'] == '^':
+                        new = 1 - old
+                    elif e['op'] == '+':
+                        if old != 0:
+                            raise OutsidePair('adding a mask to an index that already has the bit')
+                        new = 1
+                    else:
+                        if old != 1 or b is not e['r']:
+                            raise OutsidePair('subtracting a mask from an index without the bit')
+                        new = 0
+                    return (new, t) if m == 'c' else (c, new)
+        raise NotPairwise('index expression ' + SX.show(e)[:40])
+
+    def cond(self, e):
+        e = self._p(e)
+        k = e['k']
+        if k in ('bool', 'int'):
+            return bool(e['v'])
+        if k == 'ref' and e.get('id') in self.bools:
+            return self.bools[e['id']]
+        if k == 'un' and e['op'] == '!':
+            return not self.cond(e['e'])
+        if k == 'bin' and e['op'] == '&&':
+            return self.cond(e['l']) and self.cond(e['r'])
+        if k == 'bin' and e['op'] == '||':
+            return self.cond(e['l']) or self.cond(e['r'])
+        if k == 'bin' and e['op'] == '&':
+            for a, b in ((e['l'], e['r']), (e['r'], e['l'])):
+                m = self.mask(b)
+                if m:
+                    c, t = self.cell(a)
+                    return bool(c if m == 'c' else t)
+        if k == 'bin' and e['op'] in ('!=', '==') and self._p(e['r']).get('k') == 'int' and self._p(e['r'])['v'] == 0:
+            v = self.cond(e['l'])
+            return v if e['op'] == '!=' else not v
+        raise NotPairwise('condition ' + SX.show(e)[:50])
+
+    def amp_val(self, e):
+        e = self._p(e)
+        if e['k'] == 'index' and SX.show(e['base']) == self.amp:
+            return self.state[self.cell(e['i'])]
+        if e['k'] == 'ref' and e.get('id') in self.temps:
+            return self.temps[e['id']]
+        if e['k'] == 'construct' and len(SX.real_args(e)) == 1:
+            return self.amp_val(SX.real_args(e)[0])
+        if e['k'] == 'call' and (e.get('callee') or '').startswith('std::move') and SX.real_args(e):
+            return self.amp_val(SX.real_args(e)[0])
+        raise NotPairwise('amplitude expression ' + SX.show(e)[:40])
+
+    def run(self, body, cur, state):
+        self.cur, self.state = cur, dict(state)
+        self.idx, self.bools, self.temps = {}, {}, {}
+        try:
+            self.stmt(body)
+        except _Continue:
+            pass
+        return self.state
+
+    def stmt(self, s):
+        if s is None:
+            return
+        k = s['k']
+        if k == 'block':
+            for c in s['body']:
+                self.stmt(c)
+        elif k == 'if':
+            self.stmt(s['t'] if self.cond(s['c']) else s.get('e'))
+        elif k == 'continue':
+            raise _Continue()
+        elif k == 'null':
+            pass
+        elif k == 'decls':
+            for v in s['d']:
+                t = v.get('type', '')
+                if t == 'bool':
+                    self.bools[v['id']] = self.cond(v['init'])
+                elif 'complex' in t or t == 'auto':
+                    self.temps[v['id']] = self.amp_val(v['init'])
+                else:
+                    self.idx[v['id']] = self.cell(v['init'])
+        elif k == 'expr':
+            e = SX.strip(s['e'])
+            if e.get('k') == 'call' and (e.get('callee') or '').split('<')[0] in ('std::swap', 'swap') and len(SX.real_args(e)) == 2:
+                a, b = [self._p(x) for x in SX.real_args(e)]
+                ca, cb = self.cell(a['i']), self.cell(b['i'])
+                self.state[ca], self.state[cb] = self.state[cb], self.state[ca]
+                return
+            w = SX.write_target(e)
+            if w and w[2] == '=':
+                l = self._p(w[0])
+                if l.get('k') == 'index' and SX.show(l['base']) == self.amp:
+                    self.state[self.cell(l['i'])] = self.amp_val(w[1])
+                    return
+                if l.get('k') == 'ref' and l.get('id') in self.temps:
+                    self.temps[l['id']] = self.amp_val(w[1])
+                    return
+            raise NotPairwise('statement ' + SX.show(e)[:40])
+        else:
+            raise NotPairwise('statement ' + k)
